@@ -87,13 +87,13 @@ PROPS = {
               'whether an exception of user code can leave the apply step (known finding on this tree), and that no handler continues with the next entry without advancing.',
               ['equality of replicas afterwards (determinism of user code)'],
               'exception-edge reachability on the CFG of the apply step and dispatcher'),
-    'C13': _p(['R-header-agree', 'R-codec-inverse', 'R-length-range', 'R-decode-contained', 'R-consume-once', 'R-parser-state', 'R-write-fifo'],
+    'C13': _p(['R-header-agree', 'R-codec-inverse', 'R-length-range', 'R-length-symmetry', 'R-decode-contained', 'R-consume-once', 'R-parser-state', 'R-write-fifo', 'R-disconnect-idempotent'],
               'header format and literal sizes agree; receive pipeline is the reversed inverse of the send pipeline; received length bounded below and by the buffered bytes before use; '
               'decode errors contained => disconnect without consuming; buffer advanced exactly once per delivered frame by header+length; parser keeps no state but the buffer; '
               'write buffer is appended whole frames and trimmed by the sent prefix.',
               ['behaviour of the kernel socket layer', '"for all fragmentations" as such (follows from R-parser-state: delivery is a function of the byte stream)'],
               'must-facts on slice bounds, exception-edge containment, event counting per path, table agreement with struct.calcsize'),
-    'C14': _p(['R-attribution', 'R-drop-teardown', 'R-dial-order', 'R-send-connected', 'R-silent-timeout', 'R-reconnect-wiring', 'R-readonly-id-unique'],
+    'C14': _p(['R-attribution', 'R-drop-teardown', 'R-dial-order', 'R-send-connected', 'R-silent-timeout', 'R-reconnect-wiring', 'R-disconnect-idempotent', 'R-readonly-id-unique'],
               'attribution only: delivery callback bound only after the peer named a known member or "readonly", bound node taken from the member table; dropNode tears down registry, '
               'member set, address table and connection; exactly one endpoint dials and only without a live connection; send only to a registered CONNECTED connection.',
               ['reconnection within bounded time', 'half-open connection handling', 'accuracy of connect/disconnect notifications under fault sequences'],
